@@ -125,6 +125,9 @@ class Builder:
             want_trough = rng.random() < profile.get("p_trough", 0.35)
             self.specs.append(gen_trough(rng, used, profile) if want_trough else gen_plate(rng, used, profile))
         self.cfg = gen_cfg(rng, profile)
+        self.cfg0 = self.cfg             # configuration the worklist is created with (op `reconfigure` replaces self.cfg)
+        self.reconfigured = False
+        self.vol_memory = []             # transfer volumes used so far (re-used after a reconfiguration)
         self.labs = [impl.make_lab(s) for s in self.specs]
         self.wl = impl.make_wl(self.cfg)
         self.ops = []
@@ -424,7 +427,7 @@ class Builder:
             if x < 0.1:
                 v = F(0)
             elif x < 0.55:
-                v = rng.choice(cands)
+                v = rng.choice(self.vol_memory if (self.reconfigured and self.vol_memory and rng.random() < 0.7) else cands)
                 if v > room:
                     v = room if rng.random() < 0.5 else grid(rng, 0, room)
             else:
@@ -436,6 +439,8 @@ class Builder:
             if v > 40 * M:     # keep the number of split steps small (DESIGN §3.1)
                 v = grid(rng, 0, 40 * M)
             vols.append(v)
+            if v > 0 and v not in self.vol_memory:
+                self.vol_memory.append(v)
             s_room[sidx] = sr - v
             if not (si == di and sidx == didx):
                 d_room[didx] = dr - v
@@ -599,6 +604,21 @@ class Builder:
             op["liquid_class"] = "a;b"
         return op
 
+    def op_reconfigure(self):
+        """The worklist's public attributes `max_volume` / `auto_split` are reassigned between operations."""
+        rng = self.rng
+        choices = [m for m in self.profile.get("max_volumes", [F(950), F(1000), F(200), F(100), F(50), F(300)]) if m != self.cfg["max_volume"]]
+        new = dict(self.cfg)
+        if choices:
+            new["max_volume"] = rng.choice(choices)
+        if rng.random() < 0.15:
+            new["auto_split"] = not new["auto_split"]
+        self.cfg = new
+        self.reconfigured = True
+        if new["auto_split"] and F(new["max_volume"]).denominator != 1:
+            self.inexact = True
+        return {"op": "reconfigure", "cfg": dict(new)}
+
     def op_misc(self):
         rng = self.rng
         x = rng.random()
@@ -628,7 +648,7 @@ class Builder:
             return False
 
     def program(self, **extra) -> dict:
-        p = {"cfg": self.cfg, "labs": self.specs, "ops": self.ops, "exact": not self.inexact}
+        p = {"cfg": self.cfg0, "labs": self.specs, "ops": self.ops, "exact": not self.inexact}
         p.update(extra)
         return p
 
@@ -650,7 +670,7 @@ def gen_worklist_program(rng: random.Random, profile: dict) -> dict:
                 return b.program()
             continue
         op = {"transfer": b.op_transfer, "aspirate": b.op_aspirate, "dispense": b.op_dispense, "distribute": b.op_distribute,
-              "misc": b.op_misc, "add": b.op_add, "remove": b.op_remove}[k]()
+              "misc": b.op_misc, "add": b.op_add, "remove": b.op_remove, "reconfigure": b.op_reconfigure}[k]()
         if not b.push(op):
             return b.program()
     if rng.random() < profile.get("p_fail", 0.2):
